@@ -142,6 +142,54 @@ int run_ddl(const Args& a) {
             if (exists) { yk::delete_storage(name); }
         }
         ctl::g_profile.store(nullptr);
+        // every 150th race: delete_storage of a *big* storage (teardown spans many epoch periods) while another
+        // thread creates and fills new storages; the new storages must keep their data
+        if (rc % 150 == 75) {
+            std::string big = "big-storage";
+            if (yk::create_storage(big) == status::OK) {
+                ms.reenter();
+                std::size_t nbig = a.num("bigkeys", 60000);
+                for (std::size_t i = 0; i < nbig; ++i) {
+                    char kb[32];
+                    snprintf(kb, sizeof kb, "BIGSTORE%07zu", i);
+                    yput(ms.tok, big, kb, "v");
+                    if (i % 2000 == 0) { ms.reenter(); }
+                }
+                ms.leave();
+                std::vector<std::string> fresh;
+                std::atomic<bool> deleted{false};
+                run_round(2, seed * 977 + rc, [&](int tid) {
+                    if (tid == 0) {
+                        status d = yk::delete_storage(big);
+                        if (d != status::OK) { rep.violation("ddl:big-delete-status", "delete_storage of an existing storage failed", JObj().str("got", st(d)).done()); }
+                        deleted.store(true);
+                    } else {
+                        Session s2;
+                        for (int i = 0; i < 400 && (!deleted.load() || i < 40); ++i) {
+                            std::string nm = "during-big-delete-" + std::to_string(i);
+                            if (yk::create_storage(nm) != status::OK) { continue; }
+                            s2.reenter();
+                            for (int k = 0; k < 3; ++k) { yput(s2.tok, nm, "k" + std::to_string(k), "payload-of-" + nm); }
+                            s2.leave();
+                            fresh.push_back(nm);
+                            std::this_thread::sleep_for(std::chrono::microseconds(300));
+                        }
+                    }
+                });
+                for (auto& nm : fresh) {
+                    std::vector<ScanTuple> tl;
+                    status ss = yk::scan<char>(nm, "", scan_endpoint::INF, "", scan_endpoint::INF, tl, nullptr, 0, false);
+                    if ((ss != status::OK && ss != status::OK_ROOT_IS_NULL) || tl.size() != 3) {
+                        rep.violation("ddl:storage-created-during-delete-lost-data", "a storage created while another storage was being deleted lost its entries",
+                                      JObj().str("name", nm).str("scan", st(ss)).num("entries", tl.size()).done());
+                        break;
+                    }
+                }
+                for (auto& nm : fresh) { yk::delete_storage(nm); }
+                rep.count("big_storage_deletes");
+                rep.count("storages_created_during_big_delete", fresh.size());
+            }
+        }
         // bystanders untouched
         for (auto& nm : bystanders) {
             std::pair<char*, std::size_t> o;
